@@ -600,6 +600,7 @@ fn check_step(c: &Ctx<'_>, stats: &mut RunStats, models_fix: &mut Option<Option<
                 m.text = String::from_utf8(p.bytes.clone()).unwrap();
                 if !op.is_constructor() {
                     m.static_of = None;
+                    m.static_long = false;
                 }
                 Some(m)
             }
@@ -845,20 +846,22 @@ fn check_success_clauses(c: &Ctx<'_>, stats: &mut RunStats) -> Option<Violation>
 
     // ---- C10 -----------------------------------------------------------------------------
     {
-        let static_of = match op {
-            Op::FromStatic { .. } => c.models[t].as_ref().and_then(|m| m.static_of),
-            Op::Clone { src } | Op::CloneFrom { src } | Op::FromRef { src } | Op::ToLean { src: ToLeanSrc::Slot(src), .. } => {
-                c.pre_models[*src].as_ref().and_then(|m| m.static_of)
-            }
-            Op::Pop { .. } | Op::Truncate { .. } | Op::Clear => c.pre_models[t].as_ref().and_then(|m| m.static_of),
+        let origin = match op {
+            Op::FromStatic { .. } => c.models[t].as_ref(),
+            Op::Clone { src } | Op::CloneFrom { src } | Op::FromRef { src } | Op::ToLean { src: ToLeanSrc::Slot(src), .. } => c.pre_models[*src].as_ref(),
+            Op::Pop { .. } | Op::Truncate { .. } | Op::Clear => c.pre_models[t].as_ref(),
             _ => None,
         };
+        let static_of = origin.and_then(|m| m.static_of);
+        // born from a static text longer than the inline limit: it keeps pointing at the caller's
+        // bytes through clone / pop / truncate / clear, however short it gets
+        let born_long = origin.is_some_and(|m| m.static_long);
         if let (Some(a), Some(p)) = (static_of, post_t) {
             stats.relevant("C10");
             if !no_req {
                 return Some(c.plain(&["C10"], "static_allocated", format!("{} on static text made allocator requests {:?}", op.name(), c.d)));
             }
-            if p.len > INLINE && p.ptr != arena.texts[a].ptr as usize {
+            if (p.len > INLINE || born_long) && p.ptr != arena.texts[a].ptr as usize {
                 return Some(c.plain(
                     &["C10"],
                     "static_copied",
@@ -1215,6 +1218,8 @@ pub fn run_case(slots_n: usize, heap_cfg: &super::heapcfg::HeapCfg, fail_run_req
                                     if m.text != t {
                                         m.text = t.to_string();
                                         m.static_of = None;
+                                        m.static_long = false;
+                    m.static_long = false;
                                     }
                                 }
                                 None => *m = Some(Model::new(t.to_string())),
